@@ -14,7 +14,10 @@ RULE = ("header suites: every code point of the tier's set in each of the positi
         "enable_chunking/length; payload_sizes: random payload objects of every class in aiohttp/payload.py, nested "
         "MultipartWriter and FormData (sizes 0, 1, around 2**16, partially read files) written to a recording writer, "
         "and random Response/StreamResponse/FileResponse cases (bytes/str/payload/file bodies, HEAD, 204/304, ranges, "
-        "compression) sent through a real in-process server connection.  Non-trivial = the message was accepted and "
+        "compression) sent through a real in-process server connection, file-likes with short reads included; "
+        "client_request_framing: every ordered pair of body kinds (create with A, middleware update_body(B)) plus random "
+        "ClientSession requests (method, HTTP/1.0|1.1, chunked, compress, 0-2 body replacements) over an in-memory "
+        "connector.  Non-trivial = the message was accepted and "
         "bytes were emitted; distinct by hash of (input, emitted bytes).")
 TRUSTED = [
     "translator/gen_writer.py (regex class -> N->bool; ast shape checks of _safe_header, _py_serialize_headers, _set_status)",
@@ -450,7 +453,74 @@ def ps_tspec(rng, alphas, big_ok=True):
 
 
 def ps_pre(rng, n):
-    return rng.choice([0, 0, 0, 1, n // 2, max(n - 1, 0), n, n])
+    return rng.choice([0, 0, 0, min(1, n), n // 2, max(n - 1, 0), n, n])
+
+
+def ps_short(rng, n):
+    """Seed and cap of the random read sizes of a short-reading file-like (cap keeps the number of reads moderate)."""
+    return {"seed": rng.randrange(2 ** 32), "cap": rng.choice([1, 3, 50] if n <= 300 else [700, 5000, 40000])}
+
+
+def _ps_short_classes():
+    import io
+    import random
+
+    def piece(self, size):
+        if size is None or size < 0:
+            return -1
+        return self._rr.randint(1, max(1, min(size, self._cap)))
+
+    class ShortRaw(io.FileIO):
+        """Raw file (fileno, fstat size) handing out random shorter-than-requested pieces."""
+
+        def __init__(self, path, short):
+            super().__init__(path, "rb")
+            self._rr, self._cap = random.Random(short["seed"]), short["cap"]
+
+        def read(self, size=-1):
+            return super().read(piece(self, size))
+
+    class ShortBuffered(io.BufferedIOBase):
+        """BufferedIOBase over a real file; fileno() optional."""
+
+        def __init__(self, path, short, with_fileno):
+            self._f = open(path, "rb")
+            self._rr, self._cap, self._with_fileno = random.Random(short["seed"]), short["cap"], with_fileno
+
+        def read(self, size=-1):
+            return self._f.read(piece(self, size))
+
+        read1 = read
+
+        def readable(self):
+            return True
+
+        def seekable(self):
+            return True
+
+        def seek(self, pos, whence=0):
+            return self._f.seek(pos, whence)
+
+        def tell(self):
+            return self._f.tell()
+
+        def fileno(self):
+            if not self._with_fileno:
+                raise io.UnsupportedOperation("fileno")
+            return self._f.fileno()
+
+        def close(self):
+            self._f.close()
+            super().close()
+
+    class ShortBytesIO(io.BytesIO):
+        def __init__(self, data, short):
+            super().__init__(data)
+            self._rr, self._cap = random.Random(short["seed"]), short["cap"]
+
+        def read(self, size=-1):
+            return super().read(piece(self, size))
+    return ShortRaw, ShortBuffered, ShortBytesIO
 
 
 def ps_gen_leaf(rng, big_ok=True, kinds=None):
@@ -462,15 +532,23 @@ def ps_gen_leaf(rng, big_ok=True, kinds=None):
         return {"k": "str", "enc": enc, "t": ps_tspec(rng, _ENC_ALPHA[enc], big_ok)}
     if k == "bytesio":
         d = ps_dspec(rng, big_ok)
-        return {"k": "bytesio", "d": d, "pre": ps_pre(rng, d["n"])}
+        spec = {"k": "bytesio", "d": d, "pre": ps_pre(rng, d["n"])}
+        if rng.random() < 0.3:          # a BytesIO whose read(n) hands out short pieces: known size, no fileno
+            spec["short"] = ps_short(rng, d["n"])
+        return spec
     if k == "stringio":
         enc = rng.choice([None, "utf-8", "utf-16", "latin-1"])
         t = ps_tspec(rng, _ENC_ALPHA[enc], big_ok)
         return {"k": "stringio", "enc": enc, "t": t, "pre": ps_pre(rng, t["n"])}
     if k == "file":
         d = ps_dspec(rng, big_ok)
-        return {"k": "file", "mode": rng.choice(["buffered", "buffered", "raw", "membuf"]),
+        spec = {"k": "file", "mode": rng.choice(["buffered", "buffered", "raw", "membuf", "short_raw", "short_raw", "short_buf", "short_buf", "short_nofd"]),
                 "cls": rng.choice(["auto", "auto", "IOBasePayload", "BufferedReaderPayload"]), "d": d, "pre": ps_pre(rng, d["n"])}
+        if spec["mode"].startswith("short"):
+            # file-likes whose read(n) returns fewer than n bytes before EOF (io.RawIOBase allows it: slow devices,
+            # rate limiters, progress wrappers): with fileno (size = fstat) and without (size None)
+            spec["short"] = ps_short(rng, d["n"])
+        return spec
     if k == "textfile":
         r = rng.random()
         if r < 0.7:        # configurations in which the on-disk size IS the encoded size
@@ -547,6 +625,16 @@ def ps_find(spec, kind):
     return out
 
 
+def ps_has_short(spec):
+    return any(x.get("short") for x in ps_find(spec, "file") + ps_find(spec, "bytesio"))
+
+
+def ps_has_encoded(spec):
+    if not isinstance(spec, dict):
+        return False
+    return any(part["ce"] or part["cte"] or ps_has_encoded(part["p"]) for part in spec.get("parts", []))
+
+
 def ps_textfile_size_is_exact(spec):
     """Text-mode files for which bytes-on-disk == bytes the payload emits: same single-byte-order-mark-free
     encoding on both sides and no newline translation."""
@@ -609,8 +697,8 @@ class PsBuilder:
             return t, t.encode(spec["enc"] or "utf-8")
         if k == "bytesio":
             b = ps_bytes(spec["d"])
-            f = io.BytesIO(b)
-            f.read(spec["pre"])
+            f = _ps_short_classes()[2](b, spec["short"]) if spec.get("short") else io.BytesIO(b)
+            f.seek(spec["pre"])
             return f, b[spec["pre"]:]
         if k == "stringio":
             t = ps_text(spec["t"])
@@ -621,10 +709,17 @@ class PsBuilder:
             b = ps_bytes(spec["d"])
             if spec["mode"] == "membuf":
                 f = io.BufferedReader(io.BytesIO(b))
+            elif spec["mode"] == "short_raw":
+                f = _ps_short_classes()[0](self.path(b), spec["short"])
+            elif spec["mode"] in ("short_buf", "short_nofd"):
+                f = _ps_short_classes()[1](self.path(b), spec["short"], spec["mode"] == "short_buf")
             else:
                 f = open(self.path(b), "rb", **({"buffering": 0} if spec["mode"] == "raw" else {}))
             self.open.append(f)
-            f.read(spec["pre"])
+            if spec["mode"].startswith("short"):
+                f.seek(spec["pre"])
+            else:
+                f.read(spec["pre"])
             return f, b[spec["pre"]:]
         if k == "textfile":
             t = ps_text(spec["t"])
@@ -640,6 +735,14 @@ class PsBuilder:
                     yield c
             return gen(), b"".join(chunks)
         raise ValueError(k)
+
+    def formdata(self, spec):
+        from aiohttp import FormData
+        fd = FormData(quote_fields=spec["quote_fields"], charset=spec["charset"], boundary=spec["boundary"])
+        for f in spec["fields"]:
+            v, _ = self.value(f["v"])
+            fd.add_field(f["name"], v, filename=f["filename"], content_type=f["content_type"])
+        return fd
 
     def payload(self, spec):
         """(Payload, expected bytes or None)"""
@@ -659,11 +762,7 @@ class PsBuilder:
                 mp.append(sub, hs)
             return mp, None
         if k == "form":
-            fd = FormData(quote_fields=spec["quote_fields"], charset=spec["charset"], boundary=spec["boundary"])
-            for f in spec["fields"]:
-                v, _ = self.value(f["v"])
-                fd.add_field(f["name"], v, filename=f["filename"], content_type=f["content_type"])
-            return fd(), None
+            return self.formdata(spec)(), None
         v, exp = self.value(spec)
         if k == "str":
             return pl.StringPayload(v, encoding=spec["enc"]), exp
@@ -739,7 +838,9 @@ def ps_eval_payload(loop, tmp, spec, wl):
             await p.write(w2)
             if size1 != size0:
                 bad.append(("size-reuse", f"{cls}.size changed from {size0} to {size1} after a write"))
-            if bytes(w2.buf) != out:
+            if bytes(w2.buf) != out and not (ps_has_short(spec) and ps_has_encoded(spec)):
+                # (quoted-printable / zlib part encodings work per chunk: their output legitimately depends on how
+                #  a short-reading file segments its data, and the segmentation is random per write)
                 bad.append(("reuse", f"{cls}: second write() emitted {len(w2.buf)} bytes, first {len(out)}"))
             if wl is not None and cls != "MultipartWriter":     # MultipartWriter leaves the cut to StreamWriter.length
                 w3 = Rec()
@@ -1074,7 +1175,7 @@ def sig_compress_flush_bodyless(case, params):
         return False
     r = case["resp"]
     if r["r"] == "stream":
-        return sum(_ps_n(d) for d in r["writes"]) == 0
+        return True          # (what the handler writes is dropped since 1a48374; the flush at write_eof remains)
     b = r.get("body", {})
     # Response(body=bytes/bytearray) is compressed as a whole up front; every other body becomes a Payload
     # (and so does any Response on which chunked encoding was enabled)
@@ -1093,8 +1194,6 @@ def sig_failed_prepare_leaks_compression(case, params):
         any(k.lower() == "accept-encoding" for k, _ in case["req"]["headers"])
 
 
-SIGNATURES["failed_prepare_leaks_compression"] = sig_failed_prepare_leaks_compression
-SIGNATURES["stream_write_on_bodyless_response"] = sig_stream_write_bodyless
 SIGNATURES["compressor_flush_on_bodyless_response"] = sig_compress_flush_bodyless
 
 
@@ -1185,6 +1284,302 @@ def ps_replay(case):
     return ps_with_env(body)
 
 
+# ---- client requests: the emitted head and body agree ---------------------------------------------
+#
+# Real requests through ClientSession over an in-memory connector; the body is given at creation and may be
+# replaced by client middlewares (`await request.update_body(...)`, once or twice).  Implementation-only oracle
+# on the bytes that reach the transport.
+
+CR_KINDS = ["none", "bytes", "bytes", "str", "bytesio", "aiter", "aiter", "form", "file", "payload"]
+
+
+def cr_gen_body(rng):
+    k = rng.choice(CR_KINDS)
+    if k == "none":
+        return None
+    if k == "form":
+        return ps_gen_form(rng)
+    if k == "payload":      # an explicit Payload object (sized or not)
+        return {"k": "as_payload", "p": ps_gen_leaf(rng, big_ok=rng.random() < 0.2, kinds=["bytes", "str", "bytesio", "aiter", "file"])}
+    return ps_gen_leaf(rng, big_ok=rng.random() < 0.2, kinds=[k])
+
+
+def cr_gen_case(rng):
+    n_upd = rng.choice([0, 0, 1, 1, 1, 2])
+    return {"suite": "client_request_framing",
+            "method": rng.choice(["POST", "POST", "POST", "PUT", "PATCH", "DELETE", "GET"]),
+            "version": rng.choice(["1.1", "1.1", "1.1", "1.0"]),
+            "a": cr_gen_body(rng),
+            "chunked": rng.choice([None, None, None, True]),
+            "compress": rng.choice([False, False, False, False, True, "deflate", "gzip"]),
+            "updates": [cr_gen_body(rng) for _ in range(n_upd)],
+            "mw": rng.choice(["session", "request"])}
+
+
+def cr_pairs():
+    """Every ordered pair (initial body kind, replacement kind), explicit chunked=True included."""
+    import random
+    r = random.Random(4)
+    kinds = [None,
+             {"k": "bytes", "wrap": "bytes", "d": {"hex": "68656c6c6f20776f726c64"}},
+             {"k": "str", "enc": None, "t": {"text": "text bödy"}},
+             {"k": "bytesio", "d": {"seed": 7, "n": 300}, "pre": 3},
+             {"k": "aiter", "chunks": [{"hex": "6162"}, {"hex": ""}, {"seed": 9, "n": 70}]},
+             {"k": "form", "charset": None, "quote_fields": True, "boundary": None,
+              "fields": [{"name": "a", "v": {"k": "str", "enc": None, "t": {"text": "b c"}}, "filename": None, "content_type": None}]},
+             {"k": "form", "charset": None, "quote_fields": True, "boundary": "fb",
+              "fields": [{"name": "f", "v": {"k": "bytes", "wrap": "bytes", "d": {"hex": "010203"}}, "filename": "x.bin", "content_type": None}]},
+             {"k": "file", "mode": "short_raw", "cls": "auto", "d": {"seed": 11, "n": 5120}, "pre": 0, "short": {"seed": 5, "cap": 1000}}]
+    out = []
+    for a in kinds:
+        for b in kinds:
+            for chunked in (None, True):
+                for version in ("1.1", "1.0"):
+                    if version == "1.0" and r.random() < 0.6:
+                        continue
+                    out.append({"suite": "client_request_framing", "method": "POST", "version": version, "a": a, "chunked": chunked,
+                                "compress": False, "updates": [b], "mw": "request"})
+    return out
+
+
+class CrBed:
+    def __init__(self, loop, tmp):
+        import aiohttp
+        from aiohttp import HttpVersion10, HttpVersion11
+        from harness.common.transport import make_connector
+        self.loop, self.bld = loop, PsBuilder(tmp)
+        self.origin = None
+        bed = self
+
+        class Origin:
+            def __init__(self):
+                self.buf = bytearray()
+                self.tr = None
+
+            def on_bytes(self, tr, data):
+                self.tr = tr
+                self.buf += data
+
+        def factory(req):
+            bed.origin = Origin()
+            return bed.origin
+
+        async def go():
+            self.sessions = {}
+            for name, v in (("1.1", HttpVersion11), ("1.0", HttpVersion10)):
+                conn = make_connector(loop, factory, force_close=True)
+                self.sessions[name] = aiohttp.ClientSession(connector=conn, version=v, middlewares=(self._mw,))
+        loop.run_until_complete(go())
+        self.updates = []
+
+    def body_value(self, spec):
+        """(value for data= / update_body, expected bytes or None)"""
+        if spec is None:
+            return None, b""
+        if spec["k"] == "form":
+            return self.bld.formdata(spec), None
+        if spec["k"] == "as_payload":
+            return self.bld.payload(spec["p"])
+        return self.bld.value(spec, raw=True)
+
+    async def _mw(self, req, handler):
+        self.req = req
+        for spec in self.updates:
+            v, exp = self.body_value(spec)
+            await req.update_body(v)
+            self.expected = exp
+        return await handler(req)
+
+    def run(self, case):
+        """(raw bytes the client wrote, outcome)"""
+        import asyncio as aio
+        self.origin = None
+        sess = self.sessions[case["version"]]
+
+        async def go():
+            v, self.expected = self.body_value(case["a"])
+            kw = {}
+            self.req = None
+            if case["mw"] == "request":
+                self.updates = []
+                ups = list(case["updates"])
+
+                async def mw(req, handler):
+                    self.req = req
+                    for spec in ups:
+                        v2, exp = self.body_value(spec)
+                        await req.update_body(v2)
+                        self.expected = exp
+                    return await handler(req)
+                kw["middlewares"] = (mw,)
+            else:
+                self.updates = list(case["updates"])
+            task = self.loop.create_task(sess.request(case["method"], "http://h.test/p", data=v, chunked=case["chunked"],
+                                                      compress=case["compress"], **kw))
+            stable, last = 0, -1
+            for _ in range(400000):
+                await aio.sleep(0)
+                if task.done():
+                    break
+                # the request is completely written when _send() has returned and its writer task is gone
+                # (harness-side peek at two private attributes; falls back to "no progress for a long while")
+                r = self.req
+                if r is not None and hasattr(r, "_writer_task") and hasattr(r, "_response"):
+                    if self.origin is not None and r._response is not None and r._writer_task is None:
+                        break
+                    continue
+                n = len(self.origin.buf) if self.origin is not None else -1
+                if n == last and n >= 0:
+                    stable += 1
+                    if stable >= 3000:
+                        break
+                else:
+                    stable = 0
+                last = n
+            outcome = "sent"
+            if not task.done():
+                self.origin.tr.protocol.data_received(b"HTTP/1.1 200 OK\r\nContent-Length: 0\r\nConnection: close\r\n\r\n")
+            try:
+                resp = await task
+                await resp.read()
+                resp.release()
+            except (ValueError, TypeError, RuntimeError, LookupError) as e:
+                outcome = "raised:" + type(e).__name__
+            for _ in range(5):
+                await aio.sleep(0)
+            return bytes(self.origin.buf) if self.origin is not None else b"", outcome
+        try:
+            return self.loop.run_until_complete(go())
+        finally:
+            self.bld.close()
+
+    def close(self):
+        async def go():
+            for s_ in self.sessions.values():
+                await s_.close()
+        try:
+            self.loop.run_until_complete(go())
+        except Exception:  # noqa
+            pass
+
+
+def cr_check(case, raw, outcome, expected):
+    import zlib
+    if not raw:
+        return []          # refused before anything was written (or nothing to send)
+    if outcome != "sent":
+        return [("exception", f"request {outcome} after {len(raw)} bytes had been written")]
+    head, sep, rest = raw.partition(b"\r\n\r\n")
+    if not sep:
+        return [("framing", f"no complete request head in {raw[:80]!r}")]
+    hs = []
+    for ln in head.split(b"\r\n")[1:]:
+        k, _, v = ln.partition(b":")
+        hs.append((k.decode("latin-1").lower(), v.strip().decode("latin-1")))
+    cls = [v for k, v in hs if k == "content-length"]
+    te = [v.lower() for k, v in hs if k == "transfer-encoding"]
+    ce = [v.lower() for k, v in hs if k == "content-encoding"]
+    if te and cls:
+        return [("framing", f"request carries both Content-Length: {cls[0]} and Transfer-Encoding: {te[0]}")]
+    if len(cls) > 1 or len(te) > 1:
+        return [("framing", f"repeated framing headers {cls} {te}")]
+    if te:
+        if te != ["chunked"]:
+            return [("framing", f"Transfer-Encoding {te}")]
+        d = dechunk_ref(rest)
+        if d is None or d[1] != b"":
+            return [("framing", f"Transfer-Encoding: chunked but the body does not de-chunk / has trailing bytes: {rest[:60]!r}")]
+        body = d[0]
+    elif cls:
+        if not cls[0].isdigit():
+            return [("framing", f"Content-Length {cls[0]!r}")]
+        if int(cls[0]) != len(rest):
+            return [("framing", f"Content-Length: {cls[0]} but {len(rest)} body bytes follow the head: {rest[:40]!r}")]
+        body = rest
+    else:
+        if rest:
+            return [("framing", f"neither Content-Length nor Transfer-Encoding, yet {len(rest)} bytes follow the head")]
+        body = b""
+    if ce and body:          # (an empty body is sent as zero bytes even when a Content-Encoding is announced)
+        try:
+            body = zlib.decompress(body, 16 + zlib.MAX_WBITS if ce[0] == "gzip" else zlib.MAX_WBITS)
+        except zlib.error:
+            return [("content", f"Content-Encoding {ce[0]} body does not decompress")]
+    if expected is not None and body != expected:
+        return [("content", f"framed body ({len(body)} bytes) is not the supplied data ({len(expected)} bytes)")]
+    return []
+
+
+def sig_bare_last_chunk_after_get(case, params):
+    """A GET (GET_METHODS) request that ends up without a body while chunking is on (chunked=True with no data, or
+    update_body(None) after a chunked / compressed / unsized body): no Transfer-Encoding header is (re)written for a
+    body-less GET, but the StreamWriter is still put in chunked mode, so '0 CRLF CRLF' follows a head that frames nothing."""
+    if case.get("suite") != "client_request_framing" or case.get("check") != "framing" or case.get("method") != "GET":
+        return False
+    final = case["updates"][-1] if case["updates"] else case["a"]
+    return final is None
+
+
+SIGNATURES["bare_last_chunk_after_bodyless_get"] = sig_bare_last_chunk_after_get
+
+
+def cr_eval(bed, case):
+    raw, outcome = bed.run(case)
+    bad = cr_check(case, raw, outcome, bed.expected)
+    head = raw.partition(b"\r\n\r\n")[0].lower()
+    framing = "none" if not raw else ("chunked" if b"transfer-encoding" in head else ("length" if b"content-length" in head else "bare"))
+    return (len(raw), outcome, framing), bad
+
+
+def suite_client_request_framing(ctx):
+    import glob
+    import os
+    rng = ctx.rng
+    n = 450 if ctx.quick else 10000
+    corpus = []
+    for f in sorted(glob.glob(os.path.join(fw.VERIF, "corpus", PROP, "*.json"))):
+        c = json.load(open(f)).get("case", {})
+        if c.get("suite") == "client_request_framing":
+            corpus.append({k: v for k, v in c.items() if k != "check"})
+
+    def body(loop, tmp):
+        bed = CrBed(loop, tmp)
+        ran = 0
+        case = None
+        try:
+            for case in corpus + cr_pairs() + [cr_gen_case(rng) for _ in range(n)]:
+                try:
+                    obs, bad = cr_eval(bed, case)
+                except Exception as e:  # noqa
+                    ctx.violation(dict(case, check="exception"), f"client request case raised {e!r}")
+                    continue
+                ran += 1
+                ctx.case(("client", json.dumps(case, sort_keys=True), obs), nontrivial=obs[0] > 0)
+                ctx.count("cr-framing:" + obs[2])
+                ctx.count("cr-outcome:" + obs[1])
+                ctx.count("cr-updates:%d" % len(case["updates"]))
+                for check, what in bad:
+                    ctx.violation(dict(case, check=check), what)
+        finally:
+            bed.close()
+        if case is not None:
+            ctx.sample({"suite": "client_request_framing", "case": case})
+        return ran
+    ran = ps_with_env(body)
+    ctx.close_suite("client_request_framing", ran)
+
+
+def cr_replay(case):
+    def body(loop, tmp):
+        bed = CrBed(loop, tmp)
+        try:
+            obs, bad = cr_eval(bed, case)
+        finally:
+            bed.close()
+        return {"observed": list(obs), "failures": [list(b) for b in bad], "violates": bool(bad)}
+    return ps_with_env(body)
+
+
 def run(ctx):
     ok, exe = build_model()
     ctx.oblige("model-runner-build", "correspondence", ok, "" if ok else exe)
@@ -1194,11 +1589,14 @@ def run(ctx):
     suite_response_glue(ctx, exe)
     suite_writer(ctx, exe)
     suite_payload_sizes(ctx)
+    suite_client_request_framing(ctx)
 
 
 def replay(ctx, case):
     if case.get("suite") == "payload_sizes":
         return ps_replay(case)
+    if case.get("suite") == "client_request_framing":
+        return cr_replay(case)
     ok, exe = build_model()
     if case.get("suite") == "serialize_headers":
         sl, hs = case["status_line"], [tuple(x) for x in case["headers"]]
